@@ -357,7 +357,17 @@ def main(argv):
     for i, k in kf:
         print("KNOWN-FINDING: property=%s %s %s at %s: %s" %
               (prop, i["rule"], i["inst"], i["where"], i["what"]))
+    # a single defect in a table can fail thousands of cells: the first 60 are reported one by one (all of them
+    # are counted and kept in the evidence file)
+    per_rule = {}
+    shown = []
     for i in viol:
+        k_ = per_rule[i["rule"]] = per_rule.get(i["rule"], 0) + 1
+        if k_ <= 20 and len(shown) < 60:
+            shown.append(i)
+    if len(shown) < len(viol):
+        print("... %d further violations of %s not listed one by one" % (len(viol) - len(shown), sorted(per_rule)))
+    for i in shown:
         os.makedirs(rdir, exist_ok=True)
         rp = os.path.join("replays", prop, slug(i["rule"] + "-" + i["inst"]) + ".json")
         with open(os.path.join(VERIF, rp), "w") as f:
